@@ -6,18 +6,11 @@ from rules.c12 import field_writes
 S = 'proto::stun::'
 
 
-def run(ctx):
-    F = ctx.facts()
-    rep = ctx.rep
-    rep.not_decided += ['behaviour on malformed attribute TLVs beyond not panicking (C01) and not answering (the parse error propagates)',
-                        'the STUN method decoder mis-places method bits 4..11 (visible in the extracted expression); harmless because the dispatcher signature pins the first two bytes to 00 01']
+def class_codec(F):
+    """Parsed-field expressions of StunPacket::new and the exhaustive evaluation of its class/method decoder:
+    -> dict(parsed, rng, answered (second bytes accepted as a request after 00), class_ok (RFC 5389 bits on all
+    65536 leading byte pairs))"""
     new = F.fn(S + 'StunPacket::new')
-    rp = F.fn(S + 'repl')
-    ser = F.fn('<%sStunPacket as std::convert::Into<std::vec::Vec<u8>>>::into' % S)
-    rep.saw(new, rp, ser)
-
-    r1 = rep.rule('C15-R1', 'transaction id, class/method bits and message length: the id is read from bytes 4..20 and written back at bytes 4..20; the response is class 2 / method 1 and serialises to 01 01; the request test accepts 00 01 and no other second byte; length = sum over attributes of 4 + value length, computed after the last attribute is added and before serialisation', floor=8)
-    # parsed fields
     agg = None
     for bi, b in enumerate(new.blocks):
         for i, st in enumerate(b['stmts']):
@@ -37,8 +30,6 @@ def run(ctx):
                 if isinstance(r_, tuple) and r_[0] == 'agg':
                     return tuple(const_val(x) for x in r_[2]), e[1].split('::')[-1], ('BigEndian' in e[1])
         return None
-    rep.check(r1, rng(parsed['id']) == ((4, 20), 'read_u128', True), 'parse:id', 'id <- %s' % short(parsed['id']), '%s:%d' % (new.file, new.line))
-    rep.check(r1, rng(parsed['length']) == ((2, 4), 'read_u16', True), 'parse:length', 'length <- %s' % short(parsed['length']))
 
     def byte_leaf(b0, b1):
         def leaf(e):
@@ -47,6 +38,16 @@ def run(ctx):
                 if p and p[-1][0] == 'i':
                     c = const_val(p[-1][1])
                     return {0: b0, 1: b1}.get(c)
+            # a multi-byte read over a constant range of the message (byteorder)
+            r_ = rng(e)
+            if r_ and r_[0][0] is not None and r_[0][1] is not None and 0 <= r_[0][0] < r_[0][1] <= 2:
+                bs = [{0: b0, 1: b1}[k] for k in range(r_[0][0], r_[0][1])]
+                if not r_[2]:
+                    bs = list(reversed(bs))
+                v = 0
+                for x in bs:
+                    v = (v << 8) | x
+                return v
             return None
         return leaf
     answered = []
@@ -55,14 +56,32 @@ def run(ctx):
         m = eval_expr(parsed['method'], byte_leaf(0, b1), 16) & 0xffff
         if c == 0 and m == 1:
             answered.append(b1)
-    rep.check(r1, answered == [1], 'parse:request-test', 'with first byte 00, (class,method) == (0,1) exactly for second byte(s) %s' % [hex(x) for x in answered])
-    # class bits follow RFC 5389 (C1 = byte0 bit0, C0 = byte1 bit4) on all 65536 combinations
     okc = True
     for b0 in range(256):
         for b1 in range(0, 256, 1):
             c = eval_expr(parsed['class'], byte_leaf(b0, b1), 8) & 0xff
             if c != (((b0 & 1) << 1) | ((b1 >> 4) & 1)):
                 okc = False
+    return {'parsed': parsed, 'rng': rng, 'answered': answered, 'class_ok': okc, 'new': new}
+
+
+def run(ctx):
+    F = ctx.facts()
+    rep = ctx.rep
+    rep.not_decided += ['behaviour on malformed attribute TLVs beyond not panicking (C01) and not answering (the parse error propagates)',
+                        'the STUN method decoder mis-places method bits 4..11 (visible in the extracted expression); harmless because the dispatcher signature pins the first two bytes to 00 01']
+    new = F.fn(S + 'StunPacket::new')
+    rp = F.fn(S + 'repl')
+    ser = F.fn('<%sStunPacket as std::convert::Into<std::vec::Vec<u8>>>::into' % S)
+    rep.saw(new, rp, ser)
+
+    r1 = rep.rule('C15-R1', 'transaction id, class/method bits and message length: the id is read from bytes 4..20 and written back at bytes 4..20; the response is class 2 / method 1 and serialises to 01 01; the request test accepts 00 01 and no other second byte; length = sum over attributes of 4 + value length, computed after the last attribute is added and before serialisation', floor=8)
+    cc = class_codec(F)
+    parsed, rng, answered, okc = cc['parsed'], cc['rng'], cc['answered'], cc['class_ok']
+    rep.check(r1, rng(parsed['id']) == ((4, 20), 'read_u128', True), 'parse:id', 'id <- %s' % short(parsed['id']), '%s:%d' % (new.file, new.line))
+    rep.check(r1, rng(parsed['length']) == ((2, 4), 'read_u16', True), 'parse:length', 'length <- %s' % short(parsed['length']))
+    rep.check(r1, answered == [1], 'parse:request-test', 'with first byte 00, (class,method) == (0,1) exactly for second byte(s) %s' % [hex(x) for x in answered])
+    # class bits follow RFC 5389 (C1 = byte0 bit0, C0 = byte1 bit4) on all 65536 combinations
     rep.check(r1, okc, 'parse:class-bits', 'class = (byte0 bit0, byte1 bit4) for all 65536 leading byte pairs: %s' % okc)
     # writer
     items = vec_layout(ser)
@@ -163,19 +182,30 @@ def run(ctx):
     rep.check(r2, ok, 'mapped:variant-selects', 'IPv4 -> family 1, value length 4+4; IPv6 -> family 2, value length 4+16: %s (length %s)' % (ok, short(lenexpr)[:80]))
     ms = F.fn('<&%sStunMappedAddressAttribute as std::convert::Into<std::vec::Vec<u8>>>::into' % S)
     it = vec_layout(ms)
-    kinds = []
-    for x in it:
+
+    def kind(x):
         s_ = short(x['value'])
-        kinds.append('type' if 'type_' in s_ else 'length' if 'length' in s_ else 'reserved' if 'reserved' in s_ else 'family' if 'protocol_family' in s_ else 'port' if 'port' in s_ else 'addr' if 'octets' in s_ else '?')
-    rep.check(r2, kinds == ['type', 'length', 'reserved', 'family', 'port', 'port', 'addr'], 'mapped:wire-order', 'serialised as %s' % kinds, '%s:%d' % (ms.file, ms.line))
+        return 'type' if 'type_' in s_ else 'length' if 'length' in s_ else 'reserved' if 'reserved' in s_ else 'family' if 'protocol_family' in s_ else 'port' if 'port' in s_ else 'addr' if 'octets' in s_ else '?'
+    fields, problems = field_groups(ms, it, kind)
+    kinds = [fd['kind'] for fd in fields]
+    widths = [fd['width'] for fd in fields[:5]]
+    rep.check(r2, kinds == ['type', 'length', 'reserved', 'family', 'port', 'addr'] and widths == [2, 2, 1, 1, 2] and not problems,
+              'mapped:wire-order', 'serialised as %s, widths %s%s' % (kinds, widths, ('; ' + '; '.join(problems)) if problems else ''), '%s:%d' % (ms.file, ms.line))
     # port bytes big-endian; address octets by variant
-    if len(it) == 7:
-        ph, plo = it[4]['value'], it[5]['value']
-        okp = any(isinstance(x, tuple) and x[0] == 'bin' and x[1] == 'Shr' and const_val(x[3]) == 8 for x in walk(ph)) and any(isinstance(x, tuple) and x[0] == 'bin' and x[1] == 'BitAnd' and const_val(x[3]) == 0xff for x in walk(plo))
-        av = palts(it[6]['value'], unwraps=False)
+    if kinds == ['type', 'length', 'reserved', 'family', 'port', 'addr']:
+        pit = fields[4]['items']
+        if len(pit) == 2:
+            ph, plo = pit[0]['value'], pit[1]['value']
+            okp = any(isinstance(x, tuple) and x[0] == 'bin' and x[1] == 'Shr' and const_val(x[3]) == 8 for x in walk(ph)) and any(isinstance(x, tuple) and x[0] == 'bin' and x[1] == 'BitAnd' and const_val(x[3]) == 0xff for x in walk(plo))
+        else:
+            okp = len(pit) == 1 and bool(calls_in(pit[0]['value'], r'::to_be_bytes$')) and not calls_in(pit[0]['value'], r'swap_bytes|to_le|rotate')
+        av = []
+        for x in fields[5]['items']:
+            av += palts(x['value'], unwraps=False)
         v4 = [a for a in av if calls_in(a, r'Ipv4Addr::octets$') and 'V4' in short(a)]
         v6 = [a for a in av if calls_in(a, r'Ipv6Addr::octets$') and 'V6' in short(a)]
-        rep.check(r2, okp and len(v4) == 1 and len(v6) == 1, 'mapped:port-and-address-bytes', 'port high byte then low byte; address = octets() of the variant payload (4 or 16 bytes)')
+        other = [a for a in av if a not in v4 and a not in v6 and not is_call(peel(a, unwraps=False), r'Vec::<[^>]*>::new$')]
+        rep.check(r2, okp and len(v4) == 1 and len(v6) == 1 and not other, 'mapped:port-and-address-bytes', 'port high byte then low byte; address = octets() of the variant payload (4 or 16 bytes)%s' % ('; other address alternatives: %s' % [short(a)[:60] for a in other] if other else ''))
 
     r3 = rep.rule('C15-R3', 'the converse: a parsable message of class request / method binding from a known client address is always answered, and every CHANGE-REQUEST attribute reaches the change-port test', floor=2)
     from rules import silence
